@@ -25,10 +25,10 @@ func init() { commands["C04"] = runC04 }
 
 type c04Case struct {
 	N       int    `json:"n"`
-	Edges   []int  `json:"edges"`   // i*N+j present: FK from table i to table j
-	Role    []int  `json:"role"`    // per table: 0 created, 1 dropped, 2 kept
+	Edges   []int  `json:"edges"`    // i*N+j present: FK from table i to table j
+	Role    []int  `json:"role"`     // per table: 0 created, 1 dropped, 2 kept
 	KeptAdd bool   `json:"kept_add"` // kept->kept edges: added (true) or dropped (false)
-	Perm    []int  `json:"perm"`    // order in which the changes are handed to the planner
+	Perm    []int  `json:"perm"`     // order in which the changes are handed to the planner
 	Dialect string `json:"dialect"`
 }
 
